@@ -754,14 +754,38 @@ Section Consequences.
   Qed.
 
   Lemma is_active_spec r now :
-    is_active r now = true <-> r_status r = StActive /\ (r_exp r = 0 \/ now <= r_exp r).
+    is_active r now = true <-> r_status r = StActive /\ (r_exp r = 0%Z \/ (Z.of_N now <= r_exp r)%Z).
   Proof.
     unfold is_active, is_expired. destruct (r_status r); try (split; [discriminate|intros [H _]; discriminate]).
-    destruct (N.eqb_spec (r_exp r) 0) as [E|E]; cbn.
+    destruct (Z.eqb_spec (r_exp r) 0) as [E|E]; cbn.
     - split; auto.
-    - destruct (N.ltb_spec (r_exp r) now) as [L|L]; cbn; split; try discriminate; auto.
+    - destruct (Z.ltb_spec (r_exp r) (Z.of_N now)) as [L|L]; cbn; split; try discriminate; auto.
       intros [_ [H|H]]; [contradiction|lia].
   Qed.
+
+  (* an expiry instant in the past — a NEGATIVE one included — is expired at every time; only 0 means "never" *)
+  Lemma past_expiry_is_expired r now : r_exp r <> 0%Z -> (r_exp r < Z.of_N now)%Z -> is_expired r now = true /\ is_active r now = false.
+  Proof.
+    intros H0 Hl. assert (E : is_expired r now = true).
+    { unfold is_expired. apply Z.eqb_neq in H0. rewrite H0. apply Z.ltb_lt in Hl. rewrite Hl. reflexivity. }
+    split; [exact E|]. unfold is_active. rewrite E. destruct (r_status r); reflexivity.
+  Qed.
+
+  Lemma negative_expiry_is_expired r now : (r_exp r < 0)%Z -> is_expired r now = true /\ is_active r now = false.
+  Proof. intros H. apply past_expiry_is_expired; lia. Qed.
+
+  (* the adapter's expiry for an over-large ttl wraps to a negative instant: such a mapping is expired from birth *)
+  Lemma adapter_expiry_wraps now ttl :
+    (Z.of_N now < two63)%Z -> (0 <= ttl < two63)%Z -> (two63 <= Z.of_N now + ttl)%Z -> (adapter_expiry now ttl < 0)%Z.
+  Proof.
+    intros Hn Ht Ho. unfold adapter_expiry, wrap64, two63 in *.
+    replace (Z.of_N now + ttl + 9223372036854775808)%Z with ((Z.of_N now + ttl - 9223372036854775808) + 1 * (2 * 9223372036854775808))%Z by lia.
+    rewrite Z.mod_add by lia. rewrite Z.mod_small by lia. lia.
+  Qed.
+
+  Lemma adapter_expiry_in_range now ttl :
+    (0 <= Z.of_N now + ttl < two63)%Z -> adapter_expiry now ttl = (Z.of_N now + ttl)%Z.
+  Proof. intros H. unfold adapter_expiry, wrap64, two63 in *. rewrite Z.mod_small by lia. lia. Qed.
 
   (* the whole lookup on one state: a repository answer names the current holder of exactly that domain, the client
      that claimed it, a target that client wrote, and an active, unexpired record *)
